@@ -1,5 +1,3 @@
 SPECIFICATION TSpec
 CONSTRAINT Report
-INVARIANT InvCursor
-INVARIANT InvTile
 CHECK_DEADLOCK FALSE
